@@ -269,6 +269,17 @@ def correspond_stream(ctx, harness, ops, tag, label=None, shrink=True):
                                                          "faketime": "harness_ft" in harness,
                                                          "explain": "the implementation's logical keyspace after Close + reopen differs from the one before Close (last and fourth-last line)"})
                 return 1
+    # direct check on the implementation alone (C20): after the primary's change records have been
+    # applied to the replica, the two logical keyspaces are identical
+    for i, op in enumerate(ops):
+        if op.startswith("replicate ") and i + 3 < len(ops) and ops[i + 1] == "ldump" and ops[i + 2].startswith("inst ") and ops[i + 3] == "ldump" and i + 3 < len(g):
+            ctx.cov["replications"] = ctx.cov.get("replications", 0) + 1
+            if not g[i].startswith("ok") or g[i + 1] != g[i + 3]:
+                j = max((k for k in range(i) if ops[k].startswith("replicate ")), default=0)
+                record_violation(ctx, "replica-differs", {"ops": ops[:i + 4], "impl": g[:i + 4], "model": m[:i + 4], "stream": label or tag,
+                                                          "since_last_replication": ops[j:i + 1], "faketime": "harness_ft" in harness,
+                                                          "explain": "the primary's change records, sent through Encode/DecodeOp and applied to an initially identical replica, did not bring the replica to the primary's logical state (compare the last and the third-last line), or a record could not be decoded / applied"})
+                return 1
     d = first_diff(g, m, len(ops))
     if len(ctx.cov["samples"]) < 6 and len(ops) > 3:
         k = ctx.rng.randrange(1, len(ops) - 2)
@@ -281,7 +292,7 @@ def correspond_stream(ctx, harness, ops, tag, label=None, shrink=True):
     fail = ops[:d + 1]
     # setup lines (open / conn / inst) are never removed by the shrinker
     nsetup = 0
-    while nsetup < len(fail) and fail[nsetup].split()[0] in ("open", "conn", "inst"):
+    while nsetup < len(fail) and fail[nsetup].split()[0] in ("open", "conn", "inst", "watch"):
         nsetup += 1
     setup = fail[:nsetup]
     if shrink and len(fail) > nsetup + 1:
